@@ -130,7 +130,15 @@ func (r *resolver) mayFold(e gen.Expr) bool {
 	case *gen.Binary:
 		return r.mayFold(e.L) && r.mayFold(e.R)
 	case *gen.Cond:
-		return r.mayFold(e.C) && r.mayFold(e.A) && r.mayFold(e.B)
+		// a branch that is not taken is not compiled by the optimizer's private
+		// compiler, so script variables in it do not prevent folding
+		if v, ok := isBoolLit(e.C); ok {
+			if v {
+				return r.mayFold(e.A)
+			}
+			return r.mayFold(e.B)
+		}
+		return r.mayFold(e.C) && (r.mayFold(e.A) || r.mayFold(e.B))
 	case *gen.Paren:
 		return r.mayFold(e.X)
 	case *gen.ArrayLit:
